@@ -176,8 +176,25 @@ def run(ctx):
     ctx.check(not bad, 'C13.R4', 'hub.rs:no-delete-no-write', 'no fs mutator, no Request::Delete in the client',
               'the hub client module contains %s' % bad, None)
     # List hides only .copia
-    hide = False
-    filters = []
+    hide, why = list_hides_only_control(F)
+    ctx.check(hide, 'C13.R4', 'serve:List-hides-only-.copia', 'the listing drops an entry only when p.starts_with(".copia")',
+              'the List arm hides something else than the .copia control directory (%s)' % why, 'src/bin/copia/serve.rs (serve::serve)')
+    r5(ctx, F)
+
+
+def _is_control_test(fl, t):
+    ao = fl.origins(t['args'][1]) if len(t['args']) > 1 else set()
+    return callee(t).endswith('::starts_with') and bool(ao) and all(o.kind == 'const' and o.key == '.copia' for o in ao)
+
+
+def list_hides_only_control(F):
+    """The map sent for List is every entry of the tree scan except those under `.copia`.
+    Form A: a `filter` closure that is exactly `!p.starts_with(".copia")`.  Form B: a loop over the scan in which the only way to
+    reach the next entry without recording the current one is the true edge of `p.starts_with(".copia")`."""
+    sv = F.body('serve::serve')
+    if sv is None:
+        return False, 'serve::serve missing'
+    filters, hide = [], False
     for sb in F.nested('serve::serve'):
         if sb.kind != 'closure':
             continue
@@ -189,14 +206,35 @@ def run(ctx):
         filters.append(sb.path)
         branches = [bi for bi in sfl.cfg.reachable() if sb.blocks[bi]['term']['k'] == 'switch']
         for cb, ct in preds:
-            ao = sfl.origins(ct['args'][1]) if len(ct['args']) > 1 else set()
-            if callee(ct).endswith('::starts_with') and ao and all(o.kind == 'const' and o.key == '.copia' for o in ao):
+            if _is_control_test(sfl, ct):
                 ro = sfl.origins(0)
                 if any(o.kind == 'op' and o.key == 'Not' for o in ro) and len(preds) == 1 and not branches:
                     hide = True
-    ctx.check(hide and len(filters) == 1, 'C13.R4', 'serve:List-hides-only-.copia', 'List filter is !p.starts_with(".copia")',
-              'the List arm hides something else than the .copia control directory', 'src/bin/copia/serve.rs (serve::serve)')
-    r5(ctx, F)
+    if filters:
+        return hide and len(filters) == 1, 'filter closures: %s' % filters
+    # form B
+    fl = flow_of(sv)
+    cfg = fl.cfg
+    scans = fl.calls_to('meta::discover_local_fingerprints')
+    recs = [(bb, t) for bb, t in fl.calls(lambda c: c.split('::')[-1] in ('insert', 'push', 'push_back', 'extend'))]
+    for nb, nt in fl.calls_to('std::iter::Iterator::next'):
+        src = iterated_collection(fl, nb)
+        if not any(o.kind == 'call' and o.key == 'meta::discover_local_fingerprints' for o in src):
+            continue
+        some_e = fl.outcomes(nb).get('Some', set())
+        skip_e = set()
+        for cb, ct in fl.calls(lambda c: c.endswith('::starts_with')):
+            if _is_control_test(fl, ct):
+                skip_e |= fl.outcomes(cb).get('true', set())
+        rec_blocks = [bb for bb, t in recs if cfg.can_reach(nb, bb)]
+        if not some_e or not rec_blocks:
+            return False, 'no record of the entries in the listing loop'
+        for (s_, t_, lab) in some_e:
+            r = cfg.reach(t_, cut_edges=list(skip_e), cut_blocks=rec_blocks + sorted(error_blocks(sv)))
+            if nb in r or (r & set(cfg.exits())):
+                return False, 'an entry can be skipped by something else than the .copia test'
+        return True, ''
+    return False, 'no filter closure and no loop over the tree scan'
 
 
 def r5(ctx, F):
